@@ -128,7 +128,7 @@ impl PanicInfo {
                 m.push(ch);
             }
         }
-        let m: String = m.chars().take(60).collect();
+        let m: String = m.chars().take(44).collect();
         format!("panic@{}:{}:{}", krate, file, m.trim())
     }
     pub fn is_harness(&self) -> bool {
